@@ -95,3 +95,96 @@ def mk_ivc(ud):
 
 mk_ivc(True)
 mk_ivc(False)
+
+
+# ------------------------------------------------------------------ XsdAnyAttribute.raw_decode : the wildcard's verdict on one attribute
+t = Target('wildcards.XsdAnyAttribute.raw_decode', ['C03', 'C16'], 'xmlschema/validators/wildcards.py', 'XsdAnyAttribute.raw_decode',
+           note="an attribute that the namespace constraint does not admit is an error in every processContents mode (also 'skip'); 'skip' without process_skipped "
+                "returns Empty without any lookup; 'strict' (validation other than skip) adds an error when the namespace cannot be loaded or the attribute has no "
+                "global declaration; with a declaration the value is decoded by it; 'lax' without a declaration passes the value through",
+           assumes=['is_matching by its own contract (wildcards.is_matching)', 'load_namespace and the global attribute map are uninterpreted'])
+
+
+@t.symbolic
+def _(run):
+    ex = run.exec(); st = new_state()
+    matching = z3.Bool('is_matching'); pc = z3.String('process_contents'); validation = z3.String('validation')
+    loadable = z3.Bool('namespace_loadable'); declared = z3.Bool('globally_declared'); pskip = z3.Bool('process_skipped')
+    st.objf['loader'] = {}; st.objf['maps'] = {'loader': VObj('loader'), 'attributes': VStr(SV('<attribute map>'))}
+    st.objf['context'] = {'process_skipped': VBool(pskip)}
+    st.objf['self'] = {'process_contents': VStr(pc), 'maps': VObj('maps')}
+    st.objf['gattr'] = {}
+    name, value = z3.String('name'), z3.String('value')
+    st.env.update(self=VObj('self'), obj=VTuple([VStr(name), VStr(value)]), validation=VStr(validation), context=VObj('context'))
+    st.ghost.update(errs=0, lookups=0, delegated=0)
+    ex.callees['is_matching'] = lambda e, s, r, a, k: VBool(matching)
+
+    def verr(e, s, r, a, k): s.ghost['errs'] += 1; return NONE
+    ex.callees['validation_error'] = verr
+    ex.callees['get_namespace'] = lambda e, s, r, a, k: VStr(z3.String('ns'))
+
+    def load_ns(e, s, r, a, k): s.ghost['lookups'] += 1; return VBool(loadable)
+    ex.callees['load_namespace'] = load_ns
+    ex.names['Empty'] = VStr(SV('<Empty>'))
+    orig_sub = ex.e_Subscript
+
+    def e_Subscript(e, s):
+        if ast.unparse(e.value) == 'self.maps.attributes':
+            s.ghost['lookups'] += 1
+            ex.pending_raise.append((z3.Not(declared), VExc(KeyError)))
+            return VObj('gattr')
+        return orig_sub(e, s)
+    ex.e_Subscript = e_Subscript
+    dres = z3.String('delegated_result')
+
+    def raw_decode(e, s, r, a, k): s.ghost['delegated'] += 1; return VStr(dres)
+    ex.callees['raw_decode'] = raw_decode
+    ex.callees['_'] = lambda *a: OPAQUE
+    ex.callees['format'] = lambda *a: OPAQUE
+    pre = z3.And(z3.Or(pc == SV('strict'), pc == SV('lax'), pc == SV('skip')), z3.Or(validation == SV('strict'), validation == SV('lax'), validation == SV('skip')))
+    run.inputs.update(is_matching=matching, process_contents=pc, validation=validation, namespace_loadable=loadable, globally_declared=declared, process_skipped=pskip)
+    outs = ex.run(st, pre)
+    skipped = z3.And(pc == SV('skip'), z3.Not(pskip))
+    strict_missing = z3.And(z3.Not(skipped), pc == SV('strict'), validation != SV('skip'), z3.Or(z3.Not(loadable), z3.Not(declared)))
+
+    def errors(kind, v, s):
+        if kind != 'return': return z3.BoolVal(False)
+        n = s.ghost['errs']
+        want = z3.If(matching, 0, 1) + z3.If(strict_missing, 1, 0)
+        return z3.IntVal(n) == want
+
+    def result(kind, v, s):
+        if kind != 'return': return z3.BoolVal(False)
+        v = lift(v)
+        if not isinstance(v, VStr): return z3.BoolVal(False)
+        return z3.If(skipped, z3.And(v.t == SV('<Empty>'), z3.BoolVal(s.ghost['lookups'] == 0)),
+                     z3.If(z3.And(loadable, declared), z3.And(v.t == dres, z3.BoolVal(s.ghost['delegated'] == 1)), z3.And(v.t == value, z3.BoolVal(s.ghost['delegated'] == 0))))
+    run.post(ex, outs, pre, {'not-admitted-is-an-error-in-every-mode': errors, 'result-by-process-contents': result})
+
+
+@t.concrete
+def _(inp):
+    import xmlschema
+    XS = 'xmlns:xs="http://www.w3.org/2001/XMLSchema"'
+    ns = '##other' if not inp['is_matching'] else '##any'
+    decl = '<xs:attribute name="g" type="xs:int"/>' if inp['globally_declared'] else ''
+    s = xmlschema.XMLSchema10(f'<xs:schema {XS} targetNamespace="urn:t" xmlns:t="urn:t">{decl}<xs:element name="e"><xs:complexType><xs:anyAttribute namespace="{ns}" processContents="{inp["process_contents"]}"/></xs:complexType></xs:element></xs:schema>')
+    if not inp['namespace_loadable'] and inp['is_matching']: attr = 'xmlns:u="urn:unknown" u:g="7"'
+    elif not inp['is_matching']: attr = 't:g="7"'            # target namespace is not admitted by ##other
+    else: attr = 't:g="7"'
+    if not inp['namespace_loadable'] and not inp['is_matching']: return dict(ok=True, observed='not constructible', required=None)
+    doc = f'<t:e xmlns:t="urn:t" {attr}/>'
+    errs = [e.reason for e in s.iter_errors(doc, process_skipped=inp['process_skipped']) ] if False else [e.reason for e in s.iter_errors(doc)]
+    skipped = inp['process_contents'] == 'skip'
+    want = (0 if inp['is_matching'] else 1) + (1 if (not skipped and inp['process_contents'] == 'strict' and (not inp['namespace_loadable'] or not inp['globally_declared'])) else 0)
+    if inp['process_skipped']: return dict(ok=True, observed='process_skipped not reachable through iter_errors', required=None)
+    return dict(ok=len(errs) == want, observed=errs, required=f'{want} error(s)', doc=doc)
+
+
+@t.scope
+def _(tier, rng):
+    for m in (True, False):
+        for pcv in ('strict', 'lax', 'skip'):
+            for l in (True, False):
+                for d in (True, False):
+                    yield dict(is_matching=m, process_contents=pcv, validation='lax', namespace_loadable=l, globally_declared=d, process_skipped=False)
